@@ -60,6 +60,9 @@ claimed.update({
 })
 
 claimed.update({
+    "C12": dict(text="Differential check for every request: the Envoy routes generated by BuildHTTPRoutesForVirtualService/TranslateRoute/TranslateRouteMatch are evaluated by a reference Envoy route matcher and compared with a reference reading of the VirtualService "
+                     "(first rule whose match holds; uri exact/prefix/regex, headers, withoutHeaders, queryParams, method, authority, port, sourceLabels, gateways; catch-all truncation; SortVHostRoutes), with symbolic literals and a symbolic request.",
+                note="Outside: destinations/weights/cluster names, retries/timeouts/mirrors/fault/CORS, TLS/TCP routes, delegates, vhost domains, ignoreUriCase; regexes other than '.*'/'*' are an uninterpreted predicate.", ref="§4 C12"),
     "C20": dict(text="The real IptablesConfigurator.Run + rule builder are executed for every configuration of a menu; the resulting rule vectors are evaluated by a reference netfilter interpreter on a fully symbolic IPv4 packet "
                      "(protocol, 32-bit addresses, port, interfaces, owner uid/gid) and compared with the capture policy of the statement: no redirect loop for proxy-owned traffic, application outbound TCP captured iff included and not excluded "
                      "(ranges, ports, interfaces, loopback), inbound TCP captured iff port included/not excluded/not the tunnel port, app loopback traffic left alone.",
